@@ -36,6 +36,14 @@ class Gen:
         return "%s%d" % (prefix, self.n)
 
     def add(self, d):
+        # some fields are written through a type alias (`type A7 = Vec<Foo>;`): the derive sees a bare identifier
+        if not d.get("no_alias"):
+            fs = d["fields"] if d["kind"] == "struct" else [f for v in d["variants"] for f in v["fields"]]
+            for k, f in enumerate(fs):
+                t = f.get("serde_ty", f["ty"])
+                if f.get("alias") is None and not f["flatten"] and f.get("as_") is None and f.get("type") is None and not self.contains_kind(t, ("param",)) \
+                        and t[0] in ("vec", "option", "map", "wrap", "tuple", "array") and self.contains_kind(t, ("named",)) and self.rng.random() < 0.25:
+                    f["alias"] = "Al_%s_%d" % (d["ident"].replace("r#", ""), k)
         self.defs.append(d)
         self.by_id[d["ident"]] = d
         return d
@@ -247,6 +255,13 @@ class Gen:
             d["spelling"] = "serde_split"     # each container attribute in a #[serde(..)] of its own, in reverse order
         self.finish(d)
         return self.add(d)
+
+    @staticmethod
+    def clear_aliases(t):
+        """a copy of a definition gets type aliases of its own (or none): alias names are unique per crate"""
+        for f in (t["fields"] if t["kind"] == "struct" else [f for v in t["variants"] for f in v["fields"]]):
+            f["alias"] = None
+        t["no_alias"] = True
 
     @staticmethod
     def params_used(d):
@@ -542,6 +557,7 @@ class Gen:
             fs = d["fields"] if d["kind"] == "struct" else [f for v in d["variants"] for f in v["fields"]]
             if any(f["as_"] is not None for f in fs):
                 t = copy.deepcopy(d)
+                self.clear_aliases(t)
                 t["ident"] = d["ident"] + "TwAs"
                 t["rename"] = d["rename"] if d["rename"] is not None else d["ident"]   # same TypeScript name (tags carry it)
                 t["export_to"] = "twins/%sTwAs.ts" % d["ident"]
@@ -554,6 +570,7 @@ class Gen:
                     self.add(t)
             if d["docs"] or any(f["docs"] for f in fs):
                 t = copy.deepcopy(d)
+                self.clear_aliases(t)
                 t["ident"] = d["ident"] + "TwDoc"
                 t["rename"] = d["rename"] if d["rename"] is not None else d["ident"]
                 t["export_to"] = "twins/%sTwDoc.ts" % d["ident"]
@@ -568,6 +585,7 @@ class Gen:
                 # flatten twin (C14): the host without its flattened fields, under a name of its own; the host must denote
                 # the intersection of this twin with the flattened types
                 t = copy.deepcopy(d)
+                self.clear_aliases(t)
                 t["ident"] = d["ident"] + "TwFl"
                 t["rename"] = None
                 t["export_to"] = "twins/%sTwFl.ts" % d["ident"]
@@ -577,6 +595,7 @@ class Gen:
                 self.add(t)
             if any(f["inline"] for f in fs) and not any(f["as_"] is not None or f["type"] is not None for f in fs):
                 t = copy.deepcopy(d)
+                self.clear_aliases(t)
                 t["ident"] = d["ident"] + "TwIn"
                 t["rename"] = d["rename"] if d["rename"] is not None else d["ident"]
                 t["export_to"] = "twins/%sTwIn.ts" % d["ident"]
